@@ -449,3 +449,110 @@ Proof.
     rewrite (dbp_go_fuel bits (S k1 + n2) n2 n2 s1 Hper1) by (clear; lia).
     reflexivity.
 Qed.
+
+(* ---------- any sequence of reads = one read of the total ---------- *)
+Theorem dbp_reads_concat : forall bits ns s out,
+  0 < d_per s -> N.of_nat (fold_right Nat.add O ns) <= dbp_avail s ->
+  dbp_reads bits ns s = Ok out ->
+  exists s', dbp_read bits (fold_right Nat.add O ns) s = Ok (concat out, s').
+Proof.
+  intros bits ns. induction ns as [|n r IH]; intros s out Hper Hav H.
+  - cbn [dbp_reads] in H. injection H as H. subst out.
+    exists s. reflexivity.
+  - cbn [dbp_reads] in H. cbn [fold_right] in *.
+    apply bind_ok in H. destruct H as [[vs s1] [E1 H]].
+    apply bind_ok in H. destruct H as [rest [E2 H]].
+    injection H as H. subst out.
+    pose proof (dbp_read_ok bits n s vs s1 Hper ltac:(clear - Hav; lia) E1) as [R1 [R2 R3]].
+    apply IH in E2; [|rewrite R2; exact Hper|rewrite R3; clear - Hav; lia].
+    destruct E2 as [s' E2]. exists s'.
+    rewrite dbp_read_split; [|exact Hper|exact Hav].
+    rewrite E1. cbn [bind]. rewrite E2. cbn [bind concat]. reflexivity.
+Qed.
+
+(* ---------- reachable states ---------- *)
+Lemma dbp_new_avail bits buf s : dbp_new bits buf = Ok s ->
+  dbp_avail s = d_total s /\
+  exists block, d_per s = block / d_mbc s /\ 0 < d_mbc s.
+Proof.
+  intros H. unfold dbp_new in H.
+  apply bind_ok in H. destruct H as [[block b1] [_ H]].
+  apply bind_ok in H. destruct H as [[mbc b2] [_ H]].
+  apply bind_ok in H. destruct H as [[total b3] [_ H]].
+  apply bind_ok in H. destruct H as [[fz b4] [_ H]].
+  apply bind_ok in H. destruct H as [first [_ H]].
+  destruct (mbc =? 0) eqn:Em; [discriminate H|].
+  cbv zeta in H.
+  destruct (1 <? total) eqn:Et.
+  - apply dbp_load_ok in H.
+    cbn [d_rem d_per d_first d_total d_mbc] in H.
+    destruct H as [L1 [L2 [L3 [L4 [L5 [_ [_ L8]]]]]]].
+    unfold dbp_avail. rewrite L1, L3, L4. split.
+    + replace (0 <? total) with true by (clear - Et; lia). clear - Et. lia.
+    + exists block. rewrite L2, L5. split; [reflexivity|clear - Em; lia].
+  - injection H as H. subst s. unfold dbp_avail. cbn [d_rem d_per d_first d_total d_mbc]. split.
+    + destruct (0 <? total) eqn:E0; clear - Et E0; lia.
+    + exists block. split; [reflexivity|clear - Em; lia].
+Qed.
+
+(* hypotheses of dbp_read_split are satisfiable, and the split read returns the two halves *)
+Example dbp_read_split_ex :
+  let s  := mk_dbp [] 4 4 3 [0; 0; 0; 0] 0 0 32 1 1 true 0 0 in
+  let s1 := mk_dbp [] 4 4 2 [0; 0; 0; 0] 0 1 32 1 2 false 0 0 in
+  let s2 := mk_dbp [] 4 4 0 [0; 0; 0; 0] 0 3 32 1 4 false 0 0 in
+  dbp_new 32 (dbp_encode 32 128 4 [1; 2; 3; 4]) = Ok s /\
+  0 < d_per s /\ N.of_nat (2 + 2) <= dbp_avail s /\
+  dbp_read 32 2 s = Ok ([1; 2], s1) /\
+  dbp_read 32 2 s1 = Ok ([3; 4], s2) /\
+  dbp_read 32 (2 + 2) s = Ok ([1; 2; 3; 4], s2).
+Proof.
+  cbv zeta.
+  split; [vm_compute; reflexivity|].
+  split; [vm_compute; reflexivity|].
+  split; [vm_compute; intros Hc; discriminate Hc|].
+  split; [vm_compute; reflexivity|].
+  split; vm_compute; reflexivity.
+Qed.
+
+(* the availability hypothesis is necessary: asking for more than remains, the single read panics
+   (values_remaining underflow) where the split reads succeed (the second one finds
+   values_remaining = 0 and leaves its 29 slots at 0) *)
+Example dbp_read_split_needs_avail :
+  let s := mk_dbp [] 4 4 3 [0; 0; 0; 0] 0 0 32 1 1 true 0 0 in
+  0 < d_per s /\
+  dbp_read 32 (4 + 29) s = Panic /\
+  ('(v1, s1) <- dbp_read 32 4 s ;; '(v2, s2) <- dbp_read 32 29 s1 ;; Ok (v1 ++ v2, s2)) =
+  Ok ([1; 2; 3; 4] ++ repeat 0 29, mk_dbp [] 4 4 0 [0; 0; 0; 0] 0 3 32 1 4 false 0 0).
+Proof.
+  cbv zeta.
+  split; [vm_compute; reflexivity|].
+  split; vm_compute; reflexivity.
+Qed.
+
+(* the hypothesis 0 < values_per_mini_block is necessary: with 0 an iteration loads a block and
+   unpacks nothing, so only the fuel (the real loop: nothing) stops it; here enough values are
+   available, the single read runs out of input, the split read runs out of fuel *)
+Example dbp_read_split_needs_per :
+  let s := mk_dbp [0; 0; 0; 0] 1 10 9 [0] 0 0 0 0 0 false 0 0 in
+  N.of_nat (1 + 2) <= dbp_avail s /\
+  dbp_read 32 (1 + 2) s = OOB /\
+  ('(v1, s1) <- dbp_read 32 1 s ;; '(v2, s2) <- dbp_read 32 2 s1 ;; Ok (v1 ++ v2, s2)) = Err.
+Proof.
+  cbv zeta.
+  split; [vm_compute; intros Hc; discriminate Hc|].
+  split; vm_compute; reflexivity.
+Qed.
+
+(* hypotheses of dbp_reads_concat are satisfiable (an empty read in the middle included) *)
+Example dbp_reads_concat_ex :
+  let s := mk_dbp [] 4 4 3 [0; 0; 0; 0] 0 0 32 1 1 true 0 0 in
+  0 < d_per s /\ N.of_nat (fold_right Nat.add O [1; 0; 2; 1]%nat) <= dbp_avail s /\
+  dbp_reads 32 [1; 0; 2; 1]%nat s = Ok [[1]; []; [2; 3]; [4]].
+Proof.
+  cbv zeta.
+  split; [vm_compute; reflexivity|].
+  split; [vm_compute; intros Hc; discriminate Hc|vm_compute; reflexivity].
+Qed.
+
+Print Assumptions dbp_read_split.
+Print Assumptions dbp_reads_concat.
